@@ -56,3 +56,42 @@ Theorem C19_sync_top_up_within_capacity :
     forall t1, find_table id (r_tables (rs_reg (fst (fst (fst res))))) = Some t1 -> t_pc t1 <= r_max (rs_reg st).
 Proof. exact sync_topup_within_capacity. Qed.
 Print Assumptions C19_sync_top_up_within_capacity.
+
+(* the same at the level of the whole call: with no table open and every living player waiting, all the
+   tables opened by a registration get at least the minimum initial number of players *)
+Theorem C19_first_tables_get_the_minimum :
+  forall st players,
+    quiet st -> r_tc (rs_reg st) = 0 -> r_tables (rs_reg st) = [] ->
+    r_pc (rs_reg st) = zn (length (r_queue (rs_reg st))) -> 0 < r_max (rs_reg st) -> 0 < r_min (rs_reg st) ->
+    r_status (rs_reg st) <> 2 ->
+    let st' := fst (add_players st players) in
+    forall t, In t (env_of (rs_ev st') []) -> r_min (rs_reg st) <= zn (length (snd t)).
+Proof. exact first_tables_get_the_minimum. Qed.
+Print Assumptions C19_first_tables_get_the_minimum.
+
+(* which table requests can exceed the capacity: the first table opened by an allocation never does; a later
+   one does only when it is sized by the recomputed water level floor(waiting / (tables wanted - tables open)),
+   the shape of the recorded finding F12a (the trace lists, per table opened: waiting before, tables open
+   before, players given).  The harness classifies an over-capacity request as F12a by exactly this shape;
+   any other over-capacity request is reported as a violation. *)
+From PF Require Import ProofsRegShape.
+Theorem C19_over_capacity_requests_have_the_recorded_shape :
+  forall st,
+    0 < r_max (rs_reg st) -> 0 <= r_pc (rs_reg st) ->
+    allocate_tables st = st \/
+    exists fuel wl rt,
+      allocate_tables st = alloc_loop fuel st wl rt /\
+      (rt = required_tables (rs_reg st) \/ rt = r_pc (rs_reg st) / r_max (rs_reg st)) /\
+      exists evs, rs_ev (allocate_tables st) = evs ++ rs_ev st /\
+        Forall2 is_request_of (rev evs) (alloc_trace fuel st wl rt) /\
+        Forall (f12a_shape (r_max (rs_reg st)) rt) (alloc_trace fuel st wl rt) /\
+        match alloc_trace fuel st wl rt with [] => True | x :: _ => snd x <= r_max (rs_reg st) end.
+Proof. exact allocation_shape. Qed.
+Print Assumptions C19_over_capacity_requests_have_the_recorded_shape.
+
+(* the F12a witness again, as a trace: 9/6, six players seated at one table, 37 more registered: the first
+   table of the allocation is within the capacity, the third and fourth are sized 20/2 and 10/1 *)
+Example C19_F12a_trace :
+  alloc_trace 5 (mkRst (mkReg 9 6 43 1 1 (seqZ_from 7 37) [mkT 1 0 6] 2) [] [] false) 8 5
+  = [(37, 1, 8); (29, 2, 9); (20, 3, 10); (10, 4, 10)].
+Proof. vm_compute. reflexivity. Qed.
